@@ -569,6 +569,8 @@ class RDelta:
 
 assumed("pd.timedelta_days", "Timestamp - Timestamp of two timezone-aware stamps is the elapsed time between the two instants whatever their zones; "
                              "Timedelta.days is floor(seconds / 86400); astimezone / tz_convert keep the instant")
+assumed("pd.tz_convert_clock", "tz_convert(None) / tz_convert('UTC') put the labels on the UTC wall clock: month / weekday / hour read from such an index are NOT the "
+                                 "local ones (modelled as unrelated values); tz_localize(None) keeps the local wall clock")
 assumed("pd.index_extremes", "index.min() / index.max() of a DatetimeIndex are labels of the index, not after / not before every label of it (NaT for "
                              "an empty index)")
 
@@ -696,14 +698,32 @@ class RIndex:
                 return _RIndexPart(self.frame, "head")      # index[:-1] -- every label but the last
         raise Unsupported("index subscript other than a boolean mask, [1:] or [:-1]", node)
 
+    def _clock_fields(self, interp):
+        """calendar fields of the labels on the index's CURRENT clock: the row's own (local) ones, or -- after tz_convert(None) / tz_convert('UTC'),
+        which move the labels onto the UTC wall clock -- other, unrelated values (a label's UTC month / weekday / hour need not be its local one)"""
+        u = self.frame.universe
+        tag = str(self.frame.index_tag)
+        if tag.startswith("tz_convert(None)") or tag.startswith("tz_convert('UTC')") or tag.startswith("tz_convert('utc')"):
+            if "month@utc" not in u:
+                run = interp.run
+                u["month@utc"] = run.input("row.month.utc_clock", z3.IntSort())
+                u["dow@utc"] = run.input("row.dayofweek.utc_clock", z3.IntSort())
+                u["hour@utc"] = run.input("row.hour.utc_clock", z3.IntSort())
+                run._add(z3.And(u["month@utc"] >= 1, u["month@utc"] <= 12, u["dow@utc"] >= 0, u["dow@utc"] <= 6, u["hour@utc"] >= 0, u["hour@utc"] <= 23))
+                use(interp, "pd.tz_convert_clock")
+            return {"month": u["month@utc"], "dow": u["dow@utc"], "hour": u["hour@utc"]}
+        return u
+
     def sym_getattr(self, interp, name, node):
         u = self.frame.universe
-        if name == "month":
-            return RSeries(self.frame, Cell(NUM, u["month"]), "index.month")
-        if name == "dayofweek":
-            return RSeries(self.frame, Cell(NUM, u["dow"]), "index.dayofweek")
-        if name == "hour" and "hour" in u:
-            return RSeries(self.frame, Cell(NUM, u["hour"]), "index.hour")
+        if name in ("month", "dayofweek", "weekday", "hour"):
+            cf = self._clock_fields(interp)
+            if name == "month":
+                return RSeries(self.frame, Cell(NUM, cf["month"]), "index.month")
+            if name in ("dayofweek", "weekday"):
+                return RSeries(self.frame, Cell(NUM, cf["dow"]), "index.dayofweek")
+            if name == "hour" and "hour" in cf:
+                return RSeries(self.frame, Cell(NUM, cf["hour"]), "index.hour")
         if name == "isin":
             def isin(other):
                 if isinstance(other, RIndex):
